@@ -253,15 +253,18 @@ def discharge(ob, timeout_ms=10000, want_model=True):
             sliced.append(h)
     t = timeout_ms
     ladder = [("full", ob.hyps, min(3000, t), 0), ("quantifier-free-hyps", qf, min(6000, t), 0),
-              ("sliced", sliced, min(6000, t) if not ob.meta.get("slice_hints") else max(20000, t), 0),
+              ("sliced", sliced, min(6000, t) if not ob.meta.get("slice_hints") else max(30000, t), 0),
               ("full-long", ob.hyps, 4 * t, 0)]
+    if ob.meta.get("slice_hints"):
+        # hinted slices are quantifier-heavy and sensitive to the solver's random choices: two more attempts with other seeds (still sound)
+        ladder[3:3] = [("sliced-seed11", sliced, max(30000, t), 11), ("sliced-seed23", sliced, max(30000, t), 23)]
     if t > 10000:
         ladder.append(("seed7", ob.hyps, 2 * t, 7))
     tried, total = [], 0.0
     r, s = z3.unknown, None
     full_sat = None
     for label, hyps, to, seed in ladder:
-        if label in ("quantifier-free-hyps", "sliced") and len(hyps) == len(ob.hyps):
+        if label in ("quantifier-free-hyps", "sliced", "sliced-seed11", "sliced-seed23") and len(hyps) == len(ob.hyps):
             continue
         r1, dt, s1 = _check(hyps, ob.goal, to, seed)
         tried.append(label)
